@@ -252,6 +252,426 @@ def fclient_request__readHTTPRequest : List String := [
   "return &result, nil"
 ]
 
+def keyring_DirectKeyFetcher_FetchKeys : List String := [
+  "func func(ctx context.Context, requests map[PublicKeyLookupRequest]spec.Timestamp) (map[PublicKeyLookupRequest]PublicKeyLookupResult, error)",
+  "localServerRequests := []PublicKeyLookupRequest{}",
+  "byServer := map[spec.ServerName]map[PublicKeyLookupRequest]spec.Timestamp{}",
+  "for req, ts := range requests {",
+  "if d.IsLocalServerName(req.ServerName) {",
+  "localServerRequests = append(localServerRequests, req)",
+  "continue",
+  "}",
+  "server := byServer[req.ServerName]",
+  "if server == nil {",
+  "server = map[PublicKeyLookupRequest]spec.Timestamp{}",
+  "byServer[req.ServerName] = server",
+  "}",
+  "server[req] = ts",
+  "}",
+  "numWorkers := 64",
+  "if len(byServer) < numWorkers {",
+  "numWorkers = len(byServer)",
+  "}",
+  "results := map[PublicKeyLookupRequest]PublicKeyLookupResult{}",
+  "localKey := &PublicKeyLookupResult{VerifyKey: VerifyKey{Key: d.LocalPublicKey}, ExpiredTS: PublicKeyNotExpired, ValidUntilTS: spec.AsTimestamp(time.Unix(1<<37, 0))}",
+  "for _, req := range localServerRequests {",
+  "results[req] = *localKey",
+  "}",
+  "var resultsMutex sync.Mutex",
+  "var wait sync.WaitGroup",
+  "wait.Add(numWorkers)",
+  "pending := make(chan spec.ServerName, len(byServer))",
+  "for serverName := range byServer {",
+  "pending <- serverName",
+  "}",
+  "close(pending)",
+  "worker := func(ch <-chan spec.ServerName) { defer wait.Done() for server := range ch { serverResults, err := d.fetchKeysForServer(ctx, server) if err != nil { serverResults, err = d.fetchNotaryKeysForServer(ctx, server) if err != nil { continue } } resultsMutex.Lock() for req, keys := range serverResults { results[req] = keys } resultsMutex.Unlock() } }",
+  "for i := 0; i < numWorkers; i++ {",
+  "go worker(pending)",
+  "}",
+  "wait.Wait()",
+  "return results, nil"
+]
+
+def keyring_DirectKeyFetcher_FetcherName : List String := [
+  "func func() string",
+  "return \"DirectKeyFetcher\""
+]
+
+def keyring_DirectKeyFetcher_fetchKeysForServer : List String := [
+  "func func(ctx context.Context, serverName spec.ServerName) (map[PublicKeyLookupRequest]PublicKeyLookupResult, error)",
+  "ctx, cancel := context.WithTimeout(ctx, time.Second*15)",
+  "defer cancel()",
+  "keys, err := d.Client.GetServerKeys(ctx, serverName)",
+  "if err != nil {",
+  "if err != nil {",
+  "return nil, err",
+  "}",
+  "}",
+  "checks, _ := CheckKeys(serverName, time.Unix(0, 0), keys)",
+  "if !checks.AllChecksOK {",
+  "return nil, fmt.Errorf(\"gomatrixserverlib: key response direct from %q failed checks\", serverName)",
+  "}",
+  "results := map[PublicKeyLookupRequest]PublicKeyLookupResult{}",
+  "mapServerKeysToPublicKeyLookupResult(keys, results)",
+  "return results, nil"
+]
+
+def keyring_DirectKeyFetcher_fetchNotaryKeysForServer : List String := [
+  "func func(ctx context.Context, serverName spec.ServerName) (map[PublicKeyLookupRequest]PublicKeyLookupResult, error)",
+  "ctx, cancel := context.WithTimeout(ctx, time.Second*15)",
+  "defer cancel()",
+  "var keys ServerKeys",
+  "allKeys, err := d.Client.LookupServerKeys(ctx, serverName, map[PublicKeyLookupRequest]spec.Timestamp{{serverName, \"\"}: spec.AsTimestamp(time.Now())})",
+  "if err != nil {",
+  "return nil, err",
+  "}",
+  "found := false",
+  "for _, serverKeys := range allKeys {",
+  "if serverKeys.ServerName == serverName {",
+  "keys = serverKeys",
+  "found = true",
+  "break",
+  "}",
+  "}",
+  "if !found {",
+  "return nil, fmt.Errorf(\"gomatrixserverlib: notary key response contained no results for %q\", serverName)",
+  "}",
+  "checks, _ := CheckKeys(serverName, time.Unix(0, 0), keys)",
+  "if !checks.AllChecksOK {",
+  "return nil, fmt.Errorf(\"gomatrixserverlib: notary key response direct from %q failed checks\", serverName)",
+  "}",
+  "results := map[PublicKeyLookupRequest]PublicKeyLookupResult{}",
+  "mapServerKeysToPublicKeyLookupResult(keys, results)",
+  "return results, nil"
+]
+
+def keyring_JSONVerifierSelf_VerifyJSONs : List String := [
+  "func func(ctx context.Context, requests []VerifyJSONRequest) ([]VerifyJSONResult, error)",
+  "results := make([]VerifyJSONResult, len(requests))",
+  "for i := range requests {",
+  "key, err := spec.SenderID(requests[i].ServerName).RawBytes()",
+  "if err != nil {",
+  "results[i].Error = fmt.Errorf(\"unable to get key from senderID for %s: %w\", requests[i].ServerName, err)",
+  "continue",
+  "}",
+  "if err = VerifyJSON(string(requests[i].ServerName), \"ed25519:1\", ed25519.PublicKey(key), requests[i].Message); err != nil {",
+  "results[i].Error = err",
+  "continue",
+  "}",
+  "}",
+  "return results, nil"
+]
+
+def keyring_KeyRing_VerifyJSONs : List String := [
+  "func func(ctx context.Context, requests []VerifyJSONRequest) ([]VerifyJSONResult, error)",
+  "logger := util.GetLogger(ctx)",
+  "results := make([]VerifyJSONResult, len(requests))",
+  "keyIDs := make([][]KeyID, len(requests))",
+  "numRequests := len(requests)",
+  "for i := range requests {",
+  "ids, err := ListKeyIDs(string(requests[i].ServerName), requests[i].Message)",
+  "if err != nil {",
+  "results[i].Error = fmt.Errorf(\"gomatrixserverlib: error extracting key IDs\")",
+  "continue",
+  "}",
+  "for _, keyID := range ids {",
+  "if k.isAlgorithmSupported(keyID) {",
+  "keyIDs[i] = append(keyIDs[i], keyID)",
+  "}",
+  "}",
+  "if len(keyIDs[i]) == 0 {",
+  "results[i].Error = fmt.Errorf(\"gomatrixserverlib: not signed by %q with a supported algorithm\", requests[i].ServerName)",
+  "continue",
+  "}",
+  "results[i].Error = fmt.Errorf(\"gomatrixserverlib: could not download key for %q\", requests[i].ServerName)",
+  "}",
+  "keyRequests := k.publicKeyRequests(requests, results, keyIDs)",
+  "if len(keyRequests) == 0 {",
+  "return results, nil",
+  "}",
+  "keysFromDatabase, err := k.KeyDatabase.FetchKeys(ctx, keyRequests)",
+  "if err != nil {",
+  "return nil, err",
+  "}",
+  "keysFetched := map[PublicKeyLookupRequest]PublicKeyLookupResult{}",
+  "now := spec.AsTimestamp(time.Now())",
+  "for req, res := range keysFromDatabase {",
+  "if res.ExpiredTS != PublicKeyNotExpired {",
+  "keysFetched[req] = res",
+  "delete(keyRequests, req)",
+  "continue",
+  "}",
+  "keysFetched[req] = res",
+  "if now < res.ValidUntilTS && res.ExpiredTS == PublicKeyNotExpired {",
+  "delete(keyRequests, req)",
+  "}",
+  "}",
+  "if len(keysFetched) == numRequests {",
+  "k.checkUsingKeys(requests, results, keyIDs, keysFetched)",
+  "errored := false",
+  "for _, r := range results {",
+  "if r.Error != nil {",
+  "errored = true",
+  "break",
+  "}",
+  "}",
+  "if !errored {",
+  "return results, nil",
+  "}",
+  "}",
+  "for _, fetcher := range k.KeyFetchers {",
+  "if len(keyRequests) == 0 {",
+  "break",
+  "}",
+  "fetcherLogger := logger.WithField(\"fetcher\", fetcher.FetcherName())",
+  "fetcherLogger.WithField(\"num_key_requests\", len(keyRequests)).Debug(\"Requesting keys from fetcher\")",
+  "fetched, err := fetcher.FetchKeys(ctx, keyRequests)",
+  "if err != nil {",
+  "continue",
+  "}",
+  "if len(fetched) == 0 {",
+  "continue",
+  "}",
+  "fetcherLogger.WithField(\"num_keys_fetched\", len(fetched)).Debug(\"Got keys from fetcher\")",
+  "for req, res := range fetched {",
+  "if _, requested := keyRequests[req]; !requested {",
+  "if _, have := keysFetched[req]; have {",
+  "continue",
+  "}",
+  "}",
+  "keysFetched[req] = res",
+  "delete(keyRequests, req)",
+  "}",
+  "}",
+  "if len(keyRequests) > 0 {",
+  "requestedServers := make([]string, 0, len(keyRequests))",
+  "for reqs := range keyRequests {",
+  "requestedServers = append(requestedServers, string(reqs.ServerName))",
+  "}",
+  "logger.WithFields(logrus.Fields{\"servers\": requestedServers, \"fetchers\": len(k.KeyFetchers)}).Warn(\"failed to fetch keys for some servers\")",
+  "}",
+  "k.checkUsingKeys(requests, results, keyIDs, keysFetched)",
+  "if err := k.KeyDatabase.StoreKeys(ctx, keysFetched); err != nil {",
+  "return nil, err",
+  "}",
+  "return results, nil"
+]
+
+def keyring_KeyRing_checkUsingKeys : List String := [
+  "func func(requests []VerifyJSONRequest, results []VerifyJSONResult, keyIDs [][]KeyID, keys map[PublicKeyLookupRequest]PublicKeyLookupResult)",
+  "for i := range requests {",
+  "if results[i].Error == nil {",
+  "continue",
+  "}",
+  "for _, keyID := range keyIDs[i] {",
+  "serverKey, ok := keys[PublicKeyLookupRequest{requests[i].ServerName, keyID}]",
+  "if !ok {",
+  "continue",
+  "}",
+  "if !serverKey.WasValidAt(requests[i].AtTS, requests[i].ValidityCheckingFunc) {",
+  "results[i].Error = fmt.Errorf(\"gomatrixserverlib: key with ID %q for %q not valid at %d\", keyID, requests[i].ServerName, requests[i].AtTS)",
+  "continue",
+  "}",
+  "if err := VerifyJSON(string(requests[i].ServerName), keyID, ed25519.PublicKey(serverKey.Key), requests[i].Message); err != nil {",
+  "results[i].Error = err",
+  "continue",
+  "}",
+  "results[i].Error = nil",
+  "break",
+  "}",
+  "}"
+]
+
+def keyring_KeyRing_isAlgorithmSupported : List String := [
+  "func func(keyID KeyID) bool",
+  "return strings.HasPrefix(string(keyID), \"ed25519:\")"
+]
+
+def keyring_KeyRing_publicKeyRequests : List String := [
+  "func func(requests []VerifyJSONRequest, results []VerifyJSONResult, keyIDs [][]KeyID) map[PublicKeyLookupRequest]spec.Timestamp",
+  "keyRequests := map[PublicKeyLookupRequest]spec.Timestamp{}",
+  "for i := range requests {",
+  "if results[i].Error == nil {",
+  "continue",
+  "}",
+  "for _, keyID := range keyIDs[i] {",
+  "k := PublicKeyLookupRequest{requests[i].ServerName, keyID}",
+  "maxTS := keyRequests[k]",
+  "if maxTS <= requests[i].AtTS {",
+  "keyRequests[k] = requests[i].AtTS",
+  "}",
+  "}",
+  "}",
+  "return keyRequests"
+]
+
+def keyring_PerspectiveKeyFetcher_FetchKeys : List String := [
+  "func func(ctx context.Context, requests map[PublicKeyLookupRequest]spec.Timestamp) (map[PublicKeyLookupRequest]PublicKeyLookupResult, error)",
+  "serverKeys, err := p.Client.LookupServerKeys(ctx, p.PerspectiveServerName, requests)",
+  "if err != nil {",
+  "return nil, fmt.Errorf(\"gomatrixserverlib: unable to lookup server keys: %w\", err)",
+  "}",
+  "results := map[PublicKeyLookupRequest]PublicKeyLookupResult{}",
+  "for _, keys := range serverKeys {",
+  "var valid bool",
+  "keyIDs, err := ListKeyIDs(string(p.PerspectiveServerName), keys.Raw)",
+  "if err != nil {",
+  "return nil, fmt.Errorf(\"gomatrixserverlib: unable to list key IDs: %w\", err)",
+  "}",
+  "for _, keyID := range keyIDs {",
+  "perspectiveKey, ok := p.PerspectiveServerKeys[keyID]",
+  "if !ok {",
+  "continue",
+  "}",
+  "if err := VerifyJSON(string(p.PerspectiveServerName), keyID, perspectiveKey, keys.Raw); err != nil {",
+  "return nil, fmt.Errorf(\"gomatrixserverlib: unable to verify response: %w\", err)",
+  "}",
+  "valid = true",
+  "break",
+  "}",
+  "if !valid {",
+  "return nil, fmt.Errorf(\"gomatrixserverlib: not signed with a known key for the perspective server\")",
+  "}",
+  "checks, _ := CheckKeys(keys.ServerName, time.Unix(0, 0), keys)",
+  "if !checks.AllChecksOK {",
+  "return nil, fmt.Errorf(\"gomatrixserverlib: key response from perspective server failed checks\")",
+  "}",
+  "mapServerKeysToPublicKeyLookupResult(keys, results)",
+  "}",
+  "return results, nil"
+]
+
+def keyring_PerspectiveKeyFetcher_FetcherName : List String := [
+  "func func() string",
+  "return fmt.Sprintf(\"perspective server %s\", p.PerspectiveServerName)"
+]
+
+def keyring_PublicKeyLookupRequest_MarshalText : List String := [
+  "func func() ([]byte, error)",
+  "return []byte(fmt.Sprintf(\"%s/%s\", r.ServerName, r.KeyID)), nil"
+]
+
+def keyring_PublicKeyLookupRequest_UnmarshalText : List String := [
+  "func func(text []byte) error",
+  "parts := strings.SplitN(string(text), \"/\", 2)",
+  "if len(parts) < 2 {",
+  "return errors.New(\"expected at least one / separator in \" + string(text))",
+  "}",
+  "r.ServerName, r.KeyID = spec.ServerName(parts[0]), KeyID(parts[1])",
+  "return nil"
+]
+
+def keyring_PublicKeyLookupResult_WasValidAt : List String := [
+  "func func(atTs spec.Timestamp, signatureValidityCheck SignatureValidityCheckFunc) bool",
+  "if r.ExpiredTS != PublicKeyNotExpired {",
+  "return atTs < r.ExpiredTS",
+  "}",
+  "return signatureValidityCheck(atTs, r.ValidUntilTS)"
+]
+
+def keyring__NoStrictValidityCheck : List String := [
+  "func func(_, _ spec.Timestamp) bool",
+  "return true"
+]
+
+def keyring__StrictValiditySignatureCheck : List String := [
+  "func func(atTs, validUntil spec.Timestamp) bool",
+  "if validUntil == PublicKeyNotValid {",
+  "return false",
+  "}",
+  "sevenDaysFuture := time.Now().Add(time.Hour * 24 * 7)",
+  "validUntilTS := validUntil.Time()",
+  "if validUntilTS.After(sevenDaysFuture) {",
+  "validUntilTS = sevenDaysFuture",
+  "}",
+  "if atTs.Time().After(validUntilTS) {",
+  "return false",
+  "}",
+  "return true"
+]
+
+def keyring__mapServerKeysToPublicKeyLookupResult : List String := [
+  "func func(serverKeys ServerKeys, results map[PublicKeyLookupRequest]PublicKeyLookupResult)",
+  "for keyID, key := range serverKeys.VerifyKeys {",
+  "results[PublicKeyLookupRequest{ServerName: serverKeys.ServerName, KeyID: keyID}] = PublicKeyLookupResult{VerifyKey: key, ValidUntilTS: serverKeys.ValidUntilTS, ExpiredTS: PublicKeyNotExpired}",
+  "}",
+  "for keyID, key := range serverKeys.OldVerifyKeys {",
+  "results[PublicKeyLookupRequest{ServerName: serverKeys.ServerName, KeyID: keyID}] = PublicKeyLookupResult{VerifyKey: key.VerifyKey, ValidUntilTS: PublicKeyNotValid, ExpiredTS: key.ExpiredTS}",
+  "}"
+]
+
+def keys_ServerKeys_MarshalJSON : List String := [
+  "func func() ([]byte, error)",
+  "if len(keys.Raw) == 0 {",
+  "js, err := json.Marshal(keys.ServerKeyFields)",
+  "if err != nil {",
+  "return nil, err",
+  "}",
+  "return js, nil",
+  "}",
+  "return keys.Raw, nil"
+]
+
+def keys_ServerKeys_PublicKey : List String := [
+  "func func(keyID KeyID, atTS spec.Timestamp) []byte",
+  "if currentKey, ok := keys.VerifyKeys[keyID]; ok && (atTS <= keys.ValidUntilTS) {",
+  "return currentKey.Key",
+  "}",
+  "if oldKey, ok := keys.OldVerifyKeys[keyID]; ok && (atTS <= oldKey.ExpiredTS) {",
+  "return oldKey.Key",
+  "}",
+  "return nil"
+]
+
+def keys_ServerKeys_UnmarshalJSON : List String := [
+  "func func(data []byte) error",
+  "keys.Raw = data",
+  "return json.Unmarshal(data, &keys.ServerKeyFields)"
+]
+
+def keys__CheckKeys : List String := [
+  "func func(serverName spec.ServerName, now time.Time, keys ServerKeys) (checks KeyChecks, ed25519Keys map[KeyID]spec.Base64Bytes)",
+  "checks.MatchingServerName = serverName == keys.ServerName",
+  "checks.FutureValidUntilTS = keys.ValidUntilTS.Time().After(now)",
+  "checks.AllChecksOK = checks.MatchingServerName && checks.FutureValidUntilTS",
+  "ed25519Keys = checkVerifyKeys(keys, &checks)",
+  "if !checks.AllChecksOK {",
+  "ed25519Keys = nil",
+  "}",
+  "return"
+]
+
+def keys__checkVerifyKeys : List String := [
+  "func func(keys ServerKeys, checks *KeyChecks) map[KeyID]spec.Base64Bytes",
+  "allEd25519ChecksOK := true",
+  "checks.Ed25519Checks = map[KeyID]Ed25519Checks{}",
+  "verifyKeys := map[KeyID]spec.Base64Bytes{}",
+  "for keyID, keyData := range keys.VerifyKeys {",
+  "algorithm := strings.SplitN(string(keyID), \":\", 2)[0]",
+  "publicKey := keyData.Key",
+  "if algorithm == \"ed25519\" {",
+  "checks.HasEd25519Key = true",
+  "checks.AllEd25519ChecksOK = &allEd25519ChecksOK",
+  "entry := Ed25519Checks{ValidEd25519: len(publicKey) == 32}",
+  "if entry.ValidEd25519 {",
+  "err := VerifyJSON(string(keys.ServerName), keyID, []byte(publicKey), keys.Raw)",
+  "entry.MatchingSignature = err == nil",
+  "}",
+  "checks.Ed25519Checks[keyID] = entry",
+  "if entry.MatchingSignature {",
+  "verifyKeys[keyID] = publicKey",
+  "} else {",
+  "allEd25519ChecksOK = false",
+  "}",
+  "}",
+  "}",
+  "if checks.AllChecksOK {",
+  "checks.AllChecksOK = checks.HasEd25519Key && allEd25519ChecksOK",
+  "}",
+  "return verifyKeys"
+]
+
 def signing__ListKeyIDs : List String := [
   "func func(signingName string, message []byte) ([]KeyID, error)",
   "var members map[string]json.RawMessage",
@@ -426,6 +846,6 @@ def spec_servername__splitServerName : List String := [
   "return nameStr[:lastColon], int(port)"
 ]
 
-def functions : List String := ["fclient/request.go:FederationRequest.Content", "fclient/request.go:FederationRequest.Destination", "fclient/request.go:FederationRequest.HTTPRequest", "fclient/request.go:FederationRequest.Method", "fclient/request.go:FederationRequest.Origin", "fclient/request.go:FederationRequest.RequestURI", "fclient/request.go:FederationRequest.SetContent", "fclient/request.go:FederationRequest.Sign", "fclient/request.go:.NewFederationRequest", "fclient/request.go:.ParseAuthorization", "fclient/request.go:.VerifyHTTPRequest", "fclient/request.go:.isSafeInHTTPQuotedString", "fclient/request.go:.readHTTPRequest", "signing.go:.ListKeyIDs", "signing.go:.SignJSON", "signing.go:.VerifyJSON", "spec/servername.go:.ParseAndValidateServerName", "spec/servername.go:.isDNSNameChar", "spec/servername.go:.splitServerName"]
+def functions : List String := ["fclient/request.go:FederationRequest.Content", "fclient/request.go:FederationRequest.Destination", "fclient/request.go:FederationRequest.HTTPRequest", "fclient/request.go:FederationRequest.Method", "fclient/request.go:FederationRequest.Origin", "fclient/request.go:FederationRequest.RequestURI", "fclient/request.go:FederationRequest.SetContent", "fclient/request.go:FederationRequest.Sign", "fclient/request.go:.NewFederationRequest", "fclient/request.go:.ParseAuthorization", "fclient/request.go:.VerifyHTTPRequest", "fclient/request.go:.isSafeInHTTPQuotedString", "fclient/request.go:.readHTTPRequest", "keyring.go:DirectKeyFetcher.FetchKeys", "keyring.go:DirectKeyFetcher.FetcherName", "keyring.go:DirectKeyFetcher.fetchKeysForServer", "keyring.go:DirectKeyFetcher.fetchNotaryKeysForServer", "keyring.go:JSONVerifierSelf.VerifyJSONs", "keyring.go:KeyRing.VerifyJSONs", "keyring.go:KeyRing.checkUsingKeys", "keyring.go:KeyRing.isAlgorithmSupported", "keyring.go:KeyRing.publicKeyRequests", "keyring.go:PerspectiveKeyFetcher.FetchKeys", "keyring.go:PerspectiveKeyFetcher.FetcherName", "keyring.go:PublicKeyLookupRequest.MarshalText", "keyring.go:PublicKeyLookupRequest.UnmarshalText", "keyring.go:PublicKeyLookupResult.WasValidAt", "keyring.go:.NoStrictValidityCheck", "keyring.go:.StrictValiditySignatureCheck", "keyring.go:.mapServerKeysToPublicKeyLookupResult", "keys.go:ServerKeys.MarshalJSON", "keys.go:ServerKeys.PublicKey", "keys.go:ServerKeys.UnmarshalJSON", "keys.go:.CheckKeys", "keys.go:.checkVerifyKeys", "signing.go:.ListKeyIDs", "signing.go:.SignJSON", "signing.go:.VerifyJSON", "spec/servername.go:.ParseAndValidateServerName", "spec/servername.go:.isDNSNameChar", "spec/servername.go:.splitServerName"]
 
 end VPins.C13
